@@ -22,9 +22,11 @@ def run(ctx):
     for tool in ("segmenter/single", "segmenter/mux", "segmenter/lazy", "resegmenter", "Fragmentify", "combine-segs"):
         if ok.get(tool, 0) < 10:
             raise core.Machinery("tool %s succeeded on fewer than 10 inputs (dead driver?)" % tool)
-    ctx.cov["bounds"] = {"progressive": "video N in %s with every sync set, constant/alternating durations, with/without ctts, 3 chunkings; optional audio (8/13 samples, timescale 500)" % ("{3,4}" if q else "{2..6}"),
+    if s["extra"].get("m2_segment_starts_checked", 0) < 1000:
+        raise core.Machinery("the sync flag of only %d segment starts was judged (vacuous M2 check?)" % s["extra"].get("m2_segment_starts_checked", 0))
+    ctx.cov["bounds"] = {"m2_segment_starts_checked": s["extra"]["m2_segment_starts_checked"], "progressive": "video N in %s with every sync set, constant/alternating durations, with/without ctts, 3 chunkings; optional audio (8/13 samples, timescale 500)" % ("{3,4}" if q else "{2..6}"),
                          "segment_durations_ms": [10, 15, 20, 30, 45, "total", "total+10"], "tool_modes": ["single-track", "-m multiplexed", "-lazy"],
-                         "fragmented": "single track of 4..%d samples, every split into fragments, one or two truns per fragment; chunk durations {10,20,25,40,1000}" % (5 if q else 6),
+                         "fragmented": "single track of 4..%d samples, every split into fragments, one or two truns per fragment, non-sync samples marked dependent / all independent (0x02010000) / every second one; chunk durations {10,20,25,40,1000}" % (5 if q else 6),
                          "tool_ok": ok, "tool_failed": s["extra"]["tool_failed"]}
     ctx.cov["rule"] = ("behaviours = inputs x target durations of Segmenter.tla; the built example binaries (and MediaSegment.Fragmentify) run on "
                        "materialised inputs; judged when the tool exits 0; non-trivial = at least one tool succeeded and its output was compared")
